@@ -1377,6 +1377,15 @@ def rule_rangemisc(text):
             text = text[:mm.start()] + new + text[mm.end():]
     text, a = _method_to_fn(text, "min", "min_usize", "R-arith", "definition of Ord::min on usize (verified shim)")
     apps += a
+    # per-entry counters (`let mut X = 0; .. X += 1;`): treated as non-overflowing - one step per visited index entry
+    for nm in set(re.findall(r"let\s+mut\s+(\w+)\s*=\s*0\s*;", text)):
+        while True:
+            mm = re.search(r"\b%s\s*\+=\s*1\s*;" % re.escape(nm), text)
+            if not mm:
+                break
+            new_ = "%s = count_up_usize(%s);" % (nm, nm)
+            apps.append(_app("R-count", text, mm.start(), mm.end(), new_, "a usize counter incremented once per visited index entry: treated as non-overflowing (the index holds fewer than 2^64 entries)"))
+            text = text[:mm.start()] + new_ + text[mm.end():]
     return text, apps
 
 
